@@ -4,6 +4,7 @@ Helper class for generating response handling logic for an endpoint method.
 
 from __future__ import annotations
 
+import json
 import logging
 from typing import TYPE_CHECKING, Any, TypedDict
 
@@ -684,10 +685,11 @@ class EndpointResponseHandlerGenerator:
 
             # Write conditional statement with lowercase content-type (case-insensitive comparison)
             content_type_lower = content_type.lower()
+            content_type_literal = json.dumps(content_type_lower, ensure_ascii=False)  # media type as a Python literal
             if is_first:
-                writer.write_line(f'if content_type == "{content_type_lower}":')
+                writer.write_line(f"if content_type == {content_type_literal}:")
             elif not is_last:
-                writer.write_line(f'elif content_type == "{content_type_lower}":')
+                writer.write_line(f"elif content_type == {content_type_literal}:")
             else:
                 # Last item - use else for fallback
                 writer.write_line("else:  # Default/fallback content type")
